@@ -23,6 +23,9 @@ import (
 // handoff), which also makes the recorded events race-free and the run deterministic. The mirror of the filter only
 // schedules the workload; if it is wrong the run is reported as inconclusive (a pop the model did not expect is counted
 // in Cluster.QueueMismatch, a predicted pop that never comes trips a generous watchdog: Cluster.QueueStuck).
+// QueueWatchdog bounds the wait for a pop the driver predicted (queue mode); firing sets Cluster.QueueStuck.
+var QueueWatchdog = 180 * time.Second
+
 type queueState struct {
 	mu        sync.Mutex
 	queued    map[spectypes.BeaconRole][]*queue.DecodedSSVMessage
@@ -173,7 +176,7 @@ func (c *Cluster) pushQueue(op *Operator, a *Action, dec *queue.DecodedSSVMessag
 	for adm {
 		select {
 		case adm = <-q.done:
-		case <-time.After(180 * time.Second):
+		case <-time.After(QueueWatchdog):
 			c.QueueStuck = true
 			return fmt.Errorf("driver: watchdog: predicted pop did not happen")
 		}
